@@ -14,6 +14,7 @@ tocx = z3.Function('tocx', PyVal, Cx)
 toint = z3.Function('toint', PyVal, z3.IntSort())
 todt = z3.Function('todt', PyVal, z3.IntSort())
 nonfinite = z3.Function('nonfinite', PyVal, z3.BoolSort())     # nan or +-inf
+isnan_f = z3.Function('isnan_f', PyVal, z3.BoolSort())
 reduce_f = z3.Function('reduce_f', z3.IntSort(), z3.IntSort(), PyVal)   # reduction id, seq class
 
 REDUCE = {'sum': 0, 'min': 1, 'max': 2, 'all': 3, 'any': 4, 'sorted': 5}
@@ -391,7 +392,7 @@ def comprehension(I, node, env, kind):
             r = VList(out)
             r.gen = True
             return lit_gen(r)
-        return VList(out) if kind == 'list' else VSet(out)
+        return VList(out) if kind == 'list' else make_set(I, out)
     snap = env.snapshot()
     cache_e, cache_p = {}, {}
     if kind == 'set':
@@ -437,13 +438,28 @@ def comprehension(I, node, env, kind):
     return VSeq(src.src_len, elem, pred, kind)
 
 
+def make_set(I, items):
+    """Concrete-size set with symbolic members: duplicates are removed by deciding equality."""
+    out = []
+    for it in items:
+        dup = False
+        for o in out:
+            if I.ex.choose(I.py_eq(it, o)):
+                dup = True
+                break
+        if not dup:
+            out.append(it)
+    return VSet(out)
+
+
 def lit_gen(lst):
     items = lst.items
     if all(isinstance(x, (VNone, VBool, VInt, VStr, VAny)) for x in items):
         s = lit_to_seq(VList(items))
         return VSeq(s.src_len, s.elem, None, 'gen')
-    s = lit_to_seq_general(VList(items))
-    return VSeq(s.src_len, s.elem, None, 'gen')
+    g = VList(items)
+    g.gen = True        # a generator over non-scalar items (kept concrete)
+    return g
 
 
 # ---------------------------------------------------------------------------- reductions
@@ -571,6 +587,8 @@ def isinstance_(I, x, kcls):
                 P = PyVal
                 return z3.Or(P.is_PS(x.t), P.is_PBy(x.t), P.is_PL(x.t), P.is_PDi(x.t), P.is_PT(x.t))
         if c is collections.abc.Iterator:
+            if isinstance(x, VList) and getattr(x, 'gen', False):
+                return z3.BoolVal(True)
             if isinstance(x, VSeq):
                 return z3.BoolVal(x.kind == 'gen')
             if isinstance(x, (VTuple, VList, VSet, VDict, VStr, VNone, VBool, VInt, VAny)):
@@ -613,7 +631,7 @@ def call_kind(I, f, args, kwargs):
             return VSet([])
         s = to_seq(I, a)
         if isinstance(s, (VTuple, VList)):
-            return VSet(s.items)
+            return make_set(I, s.items)
         raise Unsupported('set() of symbolic sequence')
     if ck == 'dict':
         if a is None:
@@ -702,6 +720,12 @@ def call_builtin(I, f, args, kwargs):
         o = VObj(cls.pycls, tag='vector' if issubclass(cls.pycls, __import__('serif.vector', fromlist=['Vector']).Vector) else None)
         return o
     if name == 'object.__init__':
+        return NONE
+    if name == '__setattr__' and len(args) == 3 and isinstance(args[0], VObj):
+        fld = args[1].concrete()
+        if fld is None:
+            raise Unsupported('object.__setattr__ with symbolic field name')
+        args[0].fields[fld] = args[2]
         return NONE
     if name == 'slice.indices':
         n = args[0]
@@ -1095,6 +1119,16 @@ def b_isfinite(I, f, args, kw):
     return VBool(z3.Not(z3.And(PyVal.is_PF(t), nonfinite(t))))
 
 
+def b_isnan(I, f, args, kw):
+    x = args[0]
+    if isinstance(x, (VInt, VBool)):
+        return VBool(False)
+    t = to_pyval(x)
+    if not I.ex.choose(z3.Or(PyVal.is_PF(t), int_like(t))):
+        I.raise_(TypeError)
+    return VBool(z3.And(PyVal.is_PF(t), isnan_f(t)))
+
+
 def b_opaque(tag):
     def h(I, f, args, kw):
         return VOpaque(tag)
@@ -1109,5 +1143,5 @@ BUILTINS = {
     'getattr': b_getattr, 'symmethod': b_symmethod, 'hasattr': b_hasattr, 'id': b_id,
     'hash': b_hash, 'callable': b_callable, 'iter': b_iter, 'next': b_next, 'repr': b_repr,
     'sorted': b_sorted, 'reversed': b_reversed, 'abs': b_abs, 'print': b_print,
-    'combine': b_combine, 'isfinite': b_isfinite, 'time': b_opaque('time'),
+    'combine': b_combine, 'isfinite': b_isfinite, 'isnan': b_isnan, 'time': b_opaque('time'),
 }
